@@ -77,7 +77,7 @@ def every_job_is_accounted_for(ctx):
     body_call = [c for c in own_calls(r.node) if (dotted(c.func) or '') == 'self._do_get_object']
     ok = ok and len(body_call) == 1 and any(field == 'body' for _, field in q.enclosing_trys(body_call[0]))
     ctx.ob(r, 'job failure -> notify_exception(job.transfer_id, e), never propagates', ok, 'an escaping exception kills the worker before the job is counted')
-    kw = {k.arg: norm(k.value) for c in body_call for k in c.keywords}
+    kw = {k: norm(v) for c in body_call for k, v in q.bound(ctx, r, c).items()}
     ctx.ob(r, '_do_get_object receives the job fields', kw == {'bucket': 'job.bucket', 'key': 'job.key', 'temp_filename': 'job.temp_filename', 'extra_args': 'job.extra_args', 'offset': 'job.offset'}, f'{kw}')
 
 
